@@ -1,4 +1,5 @@
 import Driver.Query
+import Driver.Mutate
 open Lean (Json)
 open Treepath.Driver
 
@@ -10,6 +11,7 @@ def handleLine (line : String) : String :=
     let fam := match (fieldD j "fam" (.str "q")).getStr? with | .ok s => s | .error _ => "?"
     let r : E Json := match fam with
       | "q" => handleQuery j
+      | "m" => handleMutate j
       | _ => .error ("unknown family " ++ fam)
     match r with
     | .ok out => (Json.mkObj [("id", id), ("out", out)]).compress
